@@ -38,6 +38,7 @@ pub enum HostileOp {
     /// (nostr id byte flip) 3 pure self-update 4 self-update with changed identity (victim's)
     /// 5 commit to pending proposals 6 group data (name byte flip) 7 self-promotion to admin
     /// 8 / 9 own Remove(victim) / Add(outsider) proposal committed by reference with an update path
+    /// 10 / 11 self-update whose new leaf carries the author's identity with one byte too many / few
     CraftedCommit { g: usize, kind: u8, victim: usize },
     /// proposal built directly with openmls. kind: 0 add(outsider) 1 remove(victim) 2 group data
     CraftedProposal { g: usize, kind: u8, victim: usize },
@@ -472,6 +473,15 @@ pub fn exec(w: &mut World, step: &Step, h: HostileOp) -> Outcome {
                             let params = LeafNodeParameters::builder().with_credential_with_key(cwk).build();
                             grp.self_update(&m.provider, &signer, params).map_err(|e| e.to_string())?.into_commit()
                         }
+                        10 | 11 => {
+                            // its own identity made unparseable: one byte too many / too few
+                            let own = BasicCredential::try_from(grp.own_leaf().ok_or("no leaf")?.credential().clone()).map_err(|e| e.to_string())?;
+                            let mut id = own.identity().to_vec();
+                            if kind == 10 { id.push(0x01) } else { id.pop(); }
+                            let cwk = CredentialWithKey { credential: BasicCredential::new(id).into(), signature_key: signer.public().into() };
+                            let params = LeafNodeParameters::builder().with_credential_with_key(cwk).build();
+                            grp.self_update(&m.provider, &signer, params).map_err(|e| e.to_string())?.into_commit()
+                        }
                         _ => grp.commit_to_pending_proposals(&m.provider, &signer).map_err(|e| e.to_string())?.0,
                     }
                 } else {
@@ -517,7 +527,7 @@ pub fn exec(w: &mut World, step: &Step, h: HostileOp) -> Outcome {
                         w.publish_event(PubEvent { origin: EvRef(step.id, 1), event: pev, kind: EvKind::Hostile, creator: node, g, epoch, parent_state: parent, result_state: None, desc: format!("crafted proposal {} by n{node} admin={} victim=n{victim} (committed by reference in the same step)", if kind == 8 { "prop_remove" } else { "prop_add" }, w.is_admin(node, g)), msg: None, refs_proposals: false });
                     }
                     let admin = w.is_admin(node, g);
-                    let what = if is_commit { ["remove", "add", "groupdata_id", "selfupdate", "identity_change", "commit_pending", "groupdata_name", "groupdata_self_promotion", "remove_by_reference", "add_by_reference"][kind.min(9) as usize] } else { ["prop_add", "prop_remove", "prop_groupdata"][kind.min(2) as usize] };
+                    let what = if is_commit { ["remove", "add", "groupdata_id", "selfupdate", "identity_change", "commit_pending", "groupdata_name", "groupdata_self_promotion", "remove_by_reference", "add_by_reference", "identity_change_malformed", "identity_change_malformed"][kind.min(11) as usize] } else { ["prop_add", "prop_remove", "prop_groupdata"][kind.min(2) as usize] };
                     let r = publish(w, step, node, g, ev, EvKind::Hostile, format!("crafted {} {what} by n{node} admin={admin} victim=n{victim}", if is_commit { "commit" } else { "proposal" }), rs);
                     let mut out = o("ok", format!("crafted {what}"));
                     out.created = vec![r];
